@@ -148,7 +148,8 @@ async def replay(d: MailDriver, states, drift):
         for t in sess:
             a, b = st["ss"][t], got["st"]["ss"][t]
             ma = [a["sel"], a["ro"] and a["sel"] != "", a["idle"], [[p["k"], p["n"]] for p in a["pend"]]]
-            ib = [b["sel"], b["ro"] and b["sel"] != "", b["idle"], [list(p) for p in b["pend"]]]
+            ib = [b["sel"], b["ro"] and b["sel"] != "", b["idle"],
+                  [list(p) for p in b["pend"] if p[0] in ("EXISTS", "EXPUNGE", "FETCH")]]
             if ma != ib:
                 drift.append({"action": act, "field": f"ss[{t}]",
                               "detail": f"{where}: model {ma} impl {ib}"})
@@ -177,10 +178,21 @@ def execute(states, seed=0, **wkw):
         import asimap.mbox as mbox_mod
         orig_rr = mbox_mod.randrange
         mbox_mod.randrange = lambda a, b=None: 10 ** 7
+        # ... and folder modification times are logical: only a delivery whose
+        # mtime "advanced" moves them (the server's own writes crossing a
+        # wall-clock second must not make replays depend on real time).
+        orig_mt = mbox_mod.Mailbox.__dict__["get_actual_mtime"]
+        w.lm = {}
+
+        async def logical_mtime(cls, mh, name):
+            return w.lm.get(name, 1)
+
+        mbox_mod.Mailbox.get_actual_mtime = classmethod(logical_mtime)
         try:
             return await main2(loop)
         finally:
             mbox_mod.randrange = orig_rr
+            mbox_mod.Mailbox.get_actual_mtime = orig_mt
 
     async def main2(loop):
         await w.start()
